@@ -858,6 +858,13 @@ class SgzReader(object):
         self.variant_headers.clear()
         self.include_padding = None
 
+    def _select_variant_header_form(self, include_padding):
+        # For unstructured files the cached arrays either include the zero entries of absent traces
+        # (get_tracefield_values) or not (gen_trace_header). An accessor needing the other form than
+        # the one cached must not fail on, or index into, what an earlier call left behind.
+        if not self.structured and self.include_padding not in (None, include_padding):
+            self.clear_variant_headers()
+
     def read_variant_headers(self, include_padding=False, tracefields=None):
         """Reads all variant headers from SGZ file into a dictionary called variant_headers
 
@@ -912,6 +919,7 @@ class SgzReader(object):
         -------
         header_array : numpy.ndarray of int32, shape (tracecount)
         """
+        self._select_variant_header_form(include_padding=True)
         self.read_variant_headers(include_padding=True, tracefields=[segyio.tracefield.TraceField(tracefield)])
         return self.variant_headers[tracefield]
 
@@ -961,6 +969,7 @@ class SgzReader(object):
         for k, v in header.items():
             if isinstance(v, FileOffset):
                 if load_all_headers or not self.structured:
+                    self._select_variant_header_form(include_padding=False)
                     self.read_variant_headers()
                     header[k] = self.variant_headers[k][index]
                 else:
